@@ -71,12 +71,61 @@ def DbWF (db : List KV) : Prop := (db.map Prod.fst).Nodup
 def Placed (mem stor : GoMap) : Prop :=
   (∀ e ∈ mem, isStor e.1 = false) ∧ (∀ e ∈ stor, isStor e.1 = true)
 
-def Layer.WF (L : Layer) : Prop := MapWF L.mem ∧ MapWF L.stor
+def Layer.WF (L : Layer) : Prop := MapWF L.mem ∧ MapWF L.stor ∧ Placed L.mem L.stor
 
 def Store.WF : Store → Prop
   | .memB m s => MapWF m ∧ MapWF s
   | .level db => DbWF db
   | .bolt db => DbWF db
   | .cached L ps => L.WF ∧ ps.WF
+
+/-! ### the flush as atomic steps, schedules -/
+
+/-- the lower store already holds everything the swapped-out layer `T` holds. -/
+def Covered (T : Layer) (ps : Store) : Prop := overlay T ps.flatten = ps.flatten
+
+/-- one atomic step of some flush somewhere in the stack. `begin`/`write`/`finish` are the three
+critical sections of `persist` (memcached_store.go:398-416, 417, 419-436) of a shared store, `fail`
+its error branch (the lower `PutChangeSet` failed and wrote nothing), `whole` a flush nothing can
+interleave with (a private store's persist, `PersistSync`), `privateInto` one private store of
+`PersistPrivate`, `deeper` the same steps of a store deeper in the stack. -/
+inductive FlushStep : Store → Store → Prop
+  | begin (L : Layer) (ps : Store) : FlushStep (.cached L ps) (Store.cached L ps).persist1
+  | write (F T : Layer) (ps : Store) :
+      FlushStep (.cached F (.cached T ps)) (Store.cached F (.cached T ps)).persist2
+  | finish (F T : Layer) (ps : Store) : Covered T ps →
+      FlushStep (.cached F (.cached T ps)) (Store.cached F (.cached T ps)).persist3
+  | fail (F T : Layer) (ps : Store) :
+      FlushStep (.cached F (.cached T ps)) (Store.cached F (.cached T ps)).persist3Fail
+  | whole (L : Layer) (ps : Store) : FlushStep (.cached L ps) (Store.cached L ps).persist.1
+  | privateInto (P L : Layer) (ps : Store) :
+      FlushStep (.cached P (.cached L ps))
+        (.cached { P with mem := [], stor := [], nilMaps := true } (.cached (L.putCS P.mem P.stor) ps))
+  | deeper (L : Layer) (ps ps' : Store) : FlushStep ps ps' → FlushStep (.cached L ps) (.cached L ps')
+
+/-- what a client of the top store does, or `tau`: an internal flush step. -/
+inductive Ev where
+  | put (k : Key) (v : Option Val)   -- Put (`some`) / Delete (`none`)
+  | batch (p st : GoMap)             -- PutChangeSet
+  | tau
+
+inductive SysStep : Store → Ev → Store → Prop
+  | put (L : Layer) (ps : Store) (k : Key) (v : Option Val) :
+      SysStep (.cached L ps) (.put k v) ((Store.cached L ps).put k v)
+  | batch (L : Layer) (ps : Store) (p st : GoMap) : MapWF p → MapWF st → Placed p st →
+      SysStep (.cached L ps) (.batch p st) (.cached (L.putCS p st) ps)
+  | flush (s s' : Store) : FlushStep s s' → SysStep s .tau s'
+
+/-- a schedule: any interleaving of client writes with flush steps. -/
+inductive Run : Store → List Ev → Store → Prop
+  | nil (s : Store) : Run s [] s
+  | cons (s s' s'' : Store) (e : Ev) (es : List Ev) : SysStep s e s' → Run s' es s'' → Run s (e :: es) s''
+
+/-- the ordered map after the same client writes (flush steps do nothing to it). -/
+def specAfter (f : SpecMap) : List Ev → SpecMap
+  | [] => f
+  | .put k v :: es => specAfter (f.set k v) es
+  | .batch p st :: es => specAfter (overlay { priv := false, mem := p, stor := st } f) es
+  | .tau :: es => specAfter f es
 
 end NeoModel.Store
